@@ -17,12 +17,12 @@ import calendar, math, time as _time
 
 FIELDS = ("year", "month", "day", "hour", "min", "sec", "ms")
 COMPUTED = ("ds", "abs_curv", "speed")
-FEATURE_OPS = ("a", "s", "S", "f", "d", "I", "D", "rm", "w")       # write the feature table of their track
+FEATURE_OPS = ("a", "s", "S", "f", "d", "I", "E", "D", "rm", "w")       # write the feature table of their track
 READ_OPS = ("L", "c", "g", "q")
 NEW_OPS = ("add", "ext", "sl", "cp")
 EDIT_OPS = ("ex", "et")
 TOUCHED = {"a": ("ds", "abs_curv"), "s": ("speed",), "S": ("speed",), "f": ("speed",), "d": ("ds",),
-           "I": ("abs_curv",), "D": ("dd",)}
+           "I": ("abs_curv",), "E": ("abs_curv",), "D": ("dd",)}
 
 
 def fields_of(tms):
@@ -58,6 +58,11 @@ class Sym:
         ids = t["ids"]
         return (not self.tainted) and len(ids) >= 1 and len(set(ids)) == len(ids) and all(self.slots[h] >= len(t["names"]) for h in ids)
 
+    def exact(self, k):
+        """every observation of track k carries exactly the slots its dict lists (no slot left by a sharing track)"""
+        t = self.tracks[k]
+        return all(self.slots[h] == len(t["names"]) for h in t["ids"])
+
     def monotone(self, k):
         ids = self.tracks[k]["ids"]
         return all(self.tms(ids[i]) <= self.tms(ids[i + 1]) for i in range(len(ids) - 1))
@@ -84,7 +89,7 @@ class Sym:
             return 0 <= op[2] < op[3] <= n
         if kind in ("ex", "et"):
             return 0 <= op[2] < n
-        if kind == "I":
+        if kind in ("I", "E"):
             return "ds" in t["names"]
         if kind == "D":
             return "abs_curv" in t["names"]
@@ -142,6 +147,13 @@ class Sym:
             self._create(t, "abs_curv")
             (t["valid"].add if v else t["valid"].discard)("abs_curv")
             info = {"check": "abs_curv" if v else None, "stored": "abs_curv", "fresh": True}
+        elif kind == "E":
+            # operate("abs_curv=I{ds}"): integrate into a temporary, remove an existing abs_curv, create it again from the temporary
+            v = "ds" in t["valid"]
+            self._remove(t, "abs_curv")
+            self._create(t, "abs_curv")
+            (t["valid"].add if v else t["valid"].discard)("abs_curv")
+            info = {"check": "abs_curv" if v else None, "stored": "abs_curv", "fresh": True, "void": True}
         elif kind == "D":
             self._create(t, "dd")
         elif kind == "rm":
@@ -203,6 +215,21 @@ def valid_case(case):
         return True
     except Exception:
         return False
+
+
+def list_init_on_foreign_slots(case):
+    """index of the first operation `operate("abs_curv=I{ds}")` applied to a track some of whose observations carry a slot
+    left by a sharing track (createAnalyticalFeature(name, LIST) appends instead of writing the registered index:
+    finding `list-init-on-shared-obs`), or None"""
+    try:
+        sym = Sym(case)
+        for j, op in enumerate(case["hist"]):
+            if op[0] == "E" and not sym.exact(op[1]):
+                return j
+            sym.apply(op)
+    except Exception:
+        pass
+    return None
 
 
 # ------------------------------------------------------------------------------------------------
@@ -270,6 +297,8 @@ class Gen:
 
     # ---- helpers
     def push(self, op):
+        if op[0] == "E" and not self.sym.exact(op[1]):
+            return False                  # known finding list-init-on-shared-obs: not generated (c17.py classify)
         if self.sym.valid_op(op):
             self.case["hist"].append(op)
             self.sym.apply(op)
@@ -286,7 +315,7 @@ class Gen:
         t = sym.tracks[k]
         kinds = ["a", "a", "a", "S", "S", "s", "f", "f", "d", "L", "c", "q", "w"]
         if "ds" in t["names"]:
-            kinds += ["I", "I"]
+            kinds += ["I", "I", "E"]
         if "abs_curv" in t["names"]:
             kinds += ["D"]
         if t["names"]:
@@ -304,10 +333,10 @@ class Gen:
 
     def compute_op(self, k):
         """one of the computations of the statement on track k (possibly the manual d + I pair)"""
-        kind = self.rng.choice(["a", "a", "a", "S", "s", "f", "dI"])
-        if kind == "dI":
+        kind = self.rng.choice(["a", "a", "a", "S", "s", "f", "dI", "dE"])
+        if kind in ("dI", "dE"):
             self.push(["d", k])
-            return self.push(["I", k])
+            return self.push([kind[1], k])
         return self.push([kind, k])
 
     def new_track(self):
